@@ -507,7 +507,7 @@ Definition expected_fingerprints : list (string * string) := [
   ("URatPoly", "4fa6ba197f2515bd");
   ("MIntPoly", "ff6dafe3ea40a169");
   ("MExprPoly", "ff6dafe3ea40a169");
-  ("UExprPoly", "bb33382c12eb48b5");
+  ("UExprPoly", "20f4ed9e8b790ce3");
   ("FunctionWrapper", "d11e2c5b1d5cc05f");
   ("Beta", "489567a5f56ac5e7");
   ("GaloisField", "6530767905e4425a");
